@@ -102,6 +102,13 @@ def _qplan(what, quick, thorough):
 
 
 PLAN = {
+    "C14": dict(_qplan("", "", ""),
+                rule="one evaluation = one execution of a dispatch I/O scenario (83 scenarios: stream reads of 3 bytes under every chunking x 4 lengths x 3 high-water marks, low water, two reads, read-barrier-read, "
+                     "close(0)/close(STOP) in flight, read after close, a 4104-byte fragmented write into a 4 KiB pipe with a draining peer, random/stream channels on a regular file, interval delivery) in I/O-point mode: "
+                     "the schedule branches only at the library's read/write/pread/pwrite on the watched descriptor, where the peer's next scripted move (write chunk, drain, close, dispatch_io_close) may land first and one answer "
+                     "per execution may become a 1-byte short transfer or EINTR; library-internal interleaving follows the default schedule",
+                bounds={"quick": "all placements with <=4 deviations per scenario (peer scripts have <=5 moves, so this is every placement of every move, plus <=1 injected answer)",
+                        "thorough": "<=6 deviations; plus ordinary delay-bounded exploration (every point, 1 deviation) of 13 representative scenarios"}),
     "C16": _qplan("DATA_ADD, timer, read and write sources cancelled before activation, from the handler, from an item on the target queue, from another thread while events arrive, twice, "
                   "with cancel_and_wait, and racing activation; epoll registrations mirrored by the scheduler",
                   "k<=2 for the 14 smaller scenarios, k<=1 for the rest", "k<=3 / k<=2"),
@@ -255,6 +262,12 @@ def tasks_for(pid, tier):
                     out += ds("apply", k, [v], ncpu=ncpu, jobs=4)
         out.sort(key=lambda t: (t["jobs"], t["variant"]))
         return out
+    if pid == "C14":
+        allv = variants("io")
+        if q:
+            return ds("io", 4, allv, jobs=2)
+        full = [0, 5, 11, 47, 48, 52, 60, 64, 68, 73, 76, 78, 79]
+        return ds("io", 6, allv, jobs=2) + ds("io", 1, full, mode="db", jobs=8, env={"VX_IO_FULL": 1})
     if pid == "C16":
         allv = list(range(0, 28))
         small = [0, 1, 2, 3, 5, 6, 7, 13, 14, 15, 20, 21, 22, 27]
